@@ -170,6 +170,19 @@ Theorem C09_provenance_head_is_leaf : forall (fuel : nat) (d0 : dict cell) (next
 Proof. exact provenance_head_is_leaf. Qed.
 Print Assumptions C09_provenance_head_is_leaf.
 
+(* the condition "treat_fill returns" holds whenever the universe nesting is
+   acyclic (a rank on universes decreasing along FILL) and the fuel exceeds the
+   ranks: with C09_provenance_head_is_leaf the conclusion is then unconditional *)
+Theorem C09_treat_fill_total : forall (d0 : dict cell) (rank : Z -> nat),
+  NoDup (map fst d0) -> pristine d0 ->
+  (forall k c u, lookup k d0 = Some c -> c_fill c = Some u -> (rank u < rank (c_univ c))%nat) ->
+  forall (fuel : nat) (next : Z),
+  (forall k, lookup k d0 <> None -> (k <= next)%Z) ->
+  (forall k c, lookup k d0 = Some c -> (rank (c_univ c) < fuel)%nat) ->
+  exists r, treat_fill fuel d0 next = Ok r.
+Proof. exact treat_fill_total. Qed.
+Print Assumptions C09_treat_fill_total.
+
 (* a two-level hierarchy: cell 1 (void container) filled with universe 1 =
    {cell 2 filled with universe 2, cell 3}, universe 2 = {cell 4}: the new
    level-0 cells carry the material of cells 4 and 3 *)
